@@ -24,6 +24,7 @@ func init() {
 				{Dir: "netutil", Func: "VerifC03SRV", Opts: o},
 				{Dir: "netutil", Func: "VerifC03Chain", Opts: o},
 				{Dir: "netutil", Func: "VerifC03Boundaries", Opts: o},
+				{Dir: "netutil", Func: "VerifC03IDN", Opts: o},
 			}
 		},
 		Bounds: func(thorough bool) map[string]string {
@@ -33,6 +34,7 @@ func init() {
 			}
 			return map[string]string{
 				"free strings": "every ASCII string (all 128 values per byte) of length 0.." + n + " without an 'xn--' label, through the real idna.ToASCII",
+				"IDN":          "names of 29..32 two-byte labels (punycode 240..264 bytes) and of 3..5 labels of 40 two-byte letters (raw 245..407 bytes) with one arbitrary ASCII byte in the final label, through the real idna.ToASCII (punycode) for all three validators",
 				"boundaries":   "label lengths 62..64, service labels 15..18, total lengths 252..254; bytes from [a-z0-9_-] minus 'x' with one arbitrary ASCII byte at the first/last position of the boundary label",
 			}
 		},
@@ -51,6 +53,7 @@ func init() {
 				{Dir: "netutil", Func: "VerifC04RoundTrip6", Opts: o},
 				{Dir: "netutil", Func: "VerifC04AcceptsV4", Opts: o},
 				{Dir: "netutil", Func: "VerifC04AcceptsV6", Opts: o},
+				{Dir: "netutil", Func: "VerifC04AcceptsV4V6Text", Opts: o, NoCoverCheck: true},
 				{Dir: "netutil", Func: "VerifC04Short", Opts: o},
 			}
 			return append(hs, modelHarnesses...)
@@ -63,6 +66,7 @@ func init() {
 			return map[string]string{
 				"round trip":          "none on the address: all 2^32 IPv4 (4-byte and IPv4-mapped 16-byte net.IP) and all 2^128 IPv6 addresses; IPv4 names in every letter-case combination (one symbolic flag per letter), IPv6 names all-lower, all-upper and each single letter position upper; with and without one trailing dot",
 				"accepted language v4": "X ++ '.in-addr.arpa' (every case of the root, optional dot), X any ASCII string of length 0.." + x + " without 'xn--' label",
+				"accepted language, IPv6 text before in-addr.arpa": "optional leading '::', 0..2 hex fields of width 1 or 4 (all digits symbolic, any case), optional '::', a dotted quad of symbolic digits, '.in-addr.arpa' in every case, optional dot",
 				"accepted language v6": "32 arbitrary ASCII bytes (not '.', not 'x') at the nibble positions of the 72-byte shape, " + sep + ", root in every letter case, optional dot",
 				"short strings":        "every ASCII string of length 0.." + sh,
 			}
